@@ -340,24 +340,22 @@ v('C13', 'cache-read-before-lock', 'c13.global-lockset', (S, '''	mut.Lock()
 v('C14', 'wait-after-postprocessors', 'c14.wait-before-post', (P, '''	// the calls that were launched are awaited on the error path as well
 	query.wg.Wait()
 	if err != nil {
-		return nil, err
-	}
-	for _, postProcessor := range query.postProcessors {
-		err := postProcessor()
-		if err != nil {
-			return nil, err
-		}
-	}''', '''	if err != nil {
+		// the rows of the failed run''', '''	if err != nil {
 		query.wg.Wait()
-		return nil, err
-	}
-	for _, postProcessor := range query.postProcessors {
-		err := postProcessor()
-		if err != nil {
-			return nil, err
+		// the rows of the failed run'''), (P, '''			return nil, err
 		}
 	}
-	query.wg.Wait()'''))
+	return rs, nil
+}
+
+func (query *Query) Exec()''', '''			return nil, err
+		}
+	}
+	query.wg.Wait()
+	return rs, nil
+}
+
+func (query *Query) Exec()'''))
 v('C14', 'spinasync-not-counted', 'c14.strategy-table', (P, '''			query.wg.Add(1)
 			go func() {
 				defer query.wg.Done()
@@ -420,11 +418,7 @@ v('C18', 'unwind-keeps-array-too', 'c18.index-contracts', (F, '''			output = app
 		}''', '''			output = append(output, item...)
 		}'''))
 v('C18', 'guard-off-by-one', 'c18.guard-table', (F, '''	if len(args) > n {''', '''	if len(args) > n+1 {'''))
-v('C18', 'daterange-to-from-first-argument', 'c18.select-contracts', (F, '''	if args[1] != nil {
-		to = fmt.Sprintf("%v", args[1])
-	}''', '''	if args[1] != nil {
-		to = fmt.Sprintf("%v", args[0])
-	}'''))
+v('C18', 'daterange-to-from-first-argument', 'c18.select-contracts', (F, '''		to = TextOf(args[1])''', '''		to = TextOf(args[0])'''))
 v('C18', 'elementat-negative', 'c18.index-contracts', (F, 'if index >= 0 && len(*slice) > index {', 'if len(*slice) > index {'))
 # ---- C19
 v('C19', 'projection-error-skipped', 'c19.no-drop', (P, '''				rs, err := SelectExpr(query, current, &query.selectDefinition)
@@ -462,8 +456,8 @@ v('C19', 'group-error-ignored', 'c19.no-drop', (P, '''		qualifier, name, err := 
 		if len(qualifier) == 0 {
 			query.groupDefinition[name] = true'''))
 # ---- C20
-v('C20', 'setvar-key-from-value', 'c20.cell', (F, '''	key := fmt.Sprintf("%v", args[0])
-	value := args[1]''', '''	key := fmt.Sprintf("%v", args[1])
+v('C20', 'setvar-key-from-value', 'c20.cell', (F, '''	key := TextOf(args[0])
+	value := args[1]''', '''	key := TextOf(args[1])
 	value := args[1]'''))
 v('C20', 'vars-copied', 'c20.same-map', (P, '''		query.options.vars = vars''', '''		query.options.vars = make(map[string]any, len(vars))
 		for k, v := range vars {
@@ -672,6 +666,9 @@ v('C07', 'exists-outer-written-last', 'c07.exists-merge', (P, '''		for key, valu
 		}'''))
 v('C07', 'not-in-compares-row-map', 'c01.in-siblings', (P, '''				// a row of a subquery stands for the value of its only column, as in the IN arm
 				if row, ok := value.(Map); ok {
+					if len(row) > 1 {
+						return false, EXPECTATION_FAILED.Extend("failed to build `NOT IN` expression. the subquery returns more than one column")
+					}
 					for _, column := range row {
 						value = column
 						break
@@ -704,13 +701,13 @@ v('C14', 'join-sides-not-adopted', 'c14.join-sides-adopted', (P, '''	query.postP
 v('C14', 'error-path-skips-wait', 'c14.wait-before-post', (P, '''	// the calls that were launched are awaited on the error path as well
 	query.wg.Wait()
 	if err != nil {
-		return nil, err
-	}''', '''	if err != nil {
-		return nil, err
-	}
-	query.wg.Wait()'''))
-v('C14', 'await-does-not-wait', 'c14.await-waits', (P, '''			query.wg.Wait()
-			rs = slice[0]''', '''			rs = slice[0]'''))
+		// the rows of the failed run''', '''	defer query.wg.Wait()
+	if err != nil {
+		// the rows of the failed run'''))
+v('C14', 'await-does-not-wait', 'c14.await-waits', (P, '''			// are refused
+			query.wg.Wait()
+''', '''			// are refused
+'''))
 v('C15', 'text-helper-percent-v', 'c15.decimal-text', (C, "return strconv.FormatFloat(t, 'f', -1, 64)", 'return fmt.Sprintf("%v", t)'))
 v('C16', 'line-comment-ends-at-cr', 'c16.lexer-tokenizer', (Z, "		case '\\n':\n			// the parser ends a one-line comment", "		case '\\n', '\\r':\n			// the parser ends a one-line comment"))
 v('C16', 'double-slash-unknown', 'c16.lexer-tokenizer', (Z, '''			if nextRune == '/' {
